@@ -81,9 +81,10 @@ class ForeignKey:
                 )
                 __hermes__.logger.critical(errmsg)
                 raise HermesCircularForeignkeysRefsError(errmsg)
-            _alreadyMet.append(fkey)
+            # Only the keys met on the current path are relevant: several paths may
+            # legitimately lead to the same foreign key (e.g. "diamond" references)
             ForeignKey.checkForCircularForeignKeysRefs(
-                allfkeys, allfkeys[fkey._to_obj], _alreadyMet
+                allfkeys, allfkeys[fkey._to_obj], _alreadyMet + [fkey]
             )
 
     @staticmethod
